@@ -18,7 +18,8 @@ from concurrent.futures import ThreadPoolExecutor
 VERIF = os.path.dirname(os.path.dirname(os.path.abspath(__file__)))
 REPO = os.environ.get("MUT_REPO", "/tmp/mut_repo2")
 TARGET = os.environ.get("MUT_TARGET", "/tmp/mut_target")
-WEAK = {">= -> >", "<= -> <", "== -> !=", "!= -> ==", "error ignored", "persist call deleted"}
+WEAK = {">= -> >", "<= -> <", "== -> !=", "!= -> ==", "error ignored", "persist call deleted", "&& -> ||", "|| -> &&",
+        "+ 1 -> + 2", "+ 2 -> + 1", "- 1 -> - 2", "+ 1) -> + 2)", "+ 2) -> + 1)", "flag flipped"}
 
 
 def sh(cmd):
